@@ -70,6 +70,10 @@ def impl_matcher(case):
     kwargs = {}
     if case.get("prefixes"):
         kwargs = {"tag_prefixes": case["prefixes"], "value_separator": case["sep"]}
+    if case.get("override"):
+        # environment.py: setup_active_tag_values(provider, userdata) - current values taken from -D definitions
+        from behave.tag_matcher import setup_active_tag_values
+        setup_active_tag_values(prov, case["override"])
     m = ActiveTagMatcher(prov, **kwargs)
     out = {}
     # somebody (print_active_tags in a hook, say) asked the provider for categories with a default of its own before the
@@ -109,6 +113,15 @@ def matches(spec, tagval):
         return False
 
 
+def eff_values(case):
+    """current values after setup_active_tag_values(provider, override): only categories the provider knows are updated"""
+    vals = dict(case["values"])
+    for c, v in (case.get("override") or {}).items():
+        if c in vals:
+            vals[c] = ["str", v]
+    return vals
+
+
 def expected(case):
     prefixes = case.get("prefixes") or PREFIXES
     sep = case.get("sep") or "="
@@ -118,7 +131,7 @@ def expected(case):
         m = rx.match(t)
         if m:
             ats.append((m.group(1).startswith("not"), m.group(2), m.group(3)))
-    for cat, spec in case["values"].items():
+    for cat, spec in eff_values(case).items():
         pos = [v for n, c, v in ats if c == cat and not n]
         neg = [v for n, c, v in ats if c == cat and n]
         if (pos and not any(matches(spec, v) for v in pos)) or any(matches(spec, v) for v in neg):
@@ -137,7 +150,8 @@ def oracle(case, obs):
         sig = "unknown-category-excludes" if (obs["exclude"] and unknown and not want) else \
               ("active-tag-wrongly-excludes" if obs["exclude"] else "active-tag-fails-to-exclude")
         out.append(("tags %s with current values %s (%s provider): exclude=%s, documented logic says %s" % (
-            case["tags"], case["values"], case["provider"], obs["exclude"], want), sig))
+            case["tags"], eff_values(case), case["provider"] + (", values overridden from %s" % case["override"] if case.get("override") else ""),
+            obs["exclude"], want), sig))
     if obs["again"] != obs["exclude"]:
         out.append(("second query gives a different answer (provider cache)", "provider-cache"))
     if obs["run"] == obs["exclude"]:
@@ -162,9 +176,9 @@ def c_value(spec):
 
 
 def enc(case, obs):
-    if "EXC" in obs or case.get("prefixes") or any(isinstance(x, float) for sp in case["values"].values() for x in sp):
+    if "EXC" in obs or case.get("prefixes") or any(isinstance(x, float) for sp in eff_values(case).values() for x in sp):
         return None
-    prov = clist(["(%s, %s)" % (cstr(c), c_value(s)) for c, s in case["values"].items()], "ustr * cvalue")
+    prov = clist(["(%s, %s)" % (cstr(c), c_value(s)) for c, s in eff_values(case).items()], "ustr * cvalue")
     return "(%s, %s)" % (prov, clist([cstr(t) for t in case["tags"]], "ustr")), cbool(obs["exclude"])
 
 
@@ -185,6 +199,8 @@ def suites(tier, seed):
             if s is not None:
                 values[c] = list(s)
         case = {"tags": list(tags), "values": values, "provider": rnd.choice(["dict", "atvp", "composite"])}
+        if rnd.random() < 0.25:
+            case["override"] = {c: rnd.choice(["a", "b", "10", "zz"]) for c in rnd.sample(CATS + ["nosuch"], rnd.randint(1, 2))}
         if rnd.random() < 0.3:
             case["prequery"] = [[rnd.choice(["os", "browser", "browser.ver", "nosuch", "x"]), rnd.choice([None, "", 0, "zz"])]
                                 for _ in range(rnd.randint(1, 3))]
